@@ -31,6 +31,10 @@ def Reason.code : Reason → Nat
 def Kind.code : Kind → Nat
   | .plan => 1 | .checks => 2 | .block => 5 | .sequence => 6 | .action => 7
 
+instance : LawfulBEq Status where
+  eq_of_beq {a b} h := by cases a <;> cases b <;> first | rfl | cases h
+  rfl {a} := by cases a <;> rfl
+
 @[simp] theorem status_beq (a b : Status) : (a == b) = decide (a = b) := by cases a <;> cases b <;> rfl
 
 def Status.terminal : Status → Bool
